@@ -630,5 +630,186 @@ theorem sseq_facts (rk ek : String → Nat) (B : Nat) (hrk : Ranked doc rk ek B)
     simp only [sseq] at h
     exact sseqStep_facts s doc vars rk ek B hrk r _ ih obj sels hneed V q V' A h hcl
 
+
+/-! ### head facts, reusable (the simulation needs the same facts about the specification's treatment of one selection) -/
+
+theorem closed_after_head {rk : String → Nat} {r : Nat} {obj : String} {sel : Sel} {A : FNode → Prop} {V V1 : List String} {q1 : List FNode}
+    (hcl : Closed s doc vars obj rk r A V) (hh : HeadFacts s doc vars obj sel A V q1 V1) :
+    Closed s doc vars obj rk r (fun n => A n ∨ n ∈ q1) V1 := by
+  obtain ⟨_, _, hc1, hm1⟩ := hh
+  intro G hG
+  rcases hc1 G hG with hGV | hcov
+  · rcases hcl G hGV with h | h
+    · exact Or.inl h
+    · exact Or.inr (h.mono (fun n hn => Or.inl hn) hm1)
+  · exact Or.inr hcov
+
+theorem hf_nothing (obj : String) (sel : Sel) (A : FNode → Prop) (V : List String)
+    (hno : ∀ n, ¬ Reach s doc vars obj [sel] n) (hnoN : ∀ N, NameReach s doc vars obj [sel] N → N ∈ V) :
+    HeadFacts s doc vars obj sel A V [] V :=
+  ⟨fun n hn => absurd hn (hno n), hnoN, fun G hG => Or.inl hG, fun G hG => hG⟩
+
+theorem no_reach_field_skipped {obj key name loc dirs args hs sub} (hsk : skipSelection vars dirs = .ok true) :
+    (∀ n, ¬ Reach s doc vars obj [Sel.field key name loc dirs args hs sub] n) ∧
+    (∀ N, ¬ NameReach s doc vars obj [Sel.field key name loc dirs args hs sub] N) := by
+  constructor
+  · intro n hn; cases hn with
+    | field hm hs' => simp at hm; obtain ⟨_, _, _, rfl, _, _, _⟩ := hm; simp [hsk] at hs'
+    | inline hm => simp at hm
+    | spread hm => simp at hm
+  · intro N hN; cases hN with
+    | here hm => simp at hm
+    | inline hm => simp at hm
+    | spread hm => simp at hm
+
+theorem hf_field_kept (obj key name loc dirs args hs sub) (A : FNode → Prop) (V : List String) :
+    HeadFacts s doc vars obj (Sel.field key name loc dirs args hs sub) A V [mkNode key name loc args hs sub] V := by
+  refine ⟨?_, ?_, fun G hG => Or.inl hG, fun G hG => hG⟩
+  · intro n hn
+    cases hn with
+    | field hm hs' => simp at hm; obtain ⟨rfl, rfl, rfl, rfl, rfl, rfl, rfl⟩ := hm; exact Or.inr (by simp)
+    | inline hm => simp at hm
+    | spread hm => simp at hm
+  · intro N hN
+    cases hN with
+    | here hm => simp at hm
+    | inline hm => simp at hm
+    | spread hm => simp at hm
+
+theorem no_reach_inline_dropped {obj on dirs sub}
+    (h : skipSelection vars dirs = .ok true ∨ fragmentTypeApplies s obj on = .ok false) :
+    (∀ n, ¬ Reach s doc vars obj [Sel.inline on dirs sub] n) ∧ (∀ N, ¬ NameReach s doc vars obj [Sel.inline on dirs sub] N) := by
+  constructor
+  · intro n hn; cases hn with
+    | field hm => simp at hm
+    | inline hm hs' ha' =>
+      simp at hm; obtain ⟨rfl, rfl, rfl⟩ := hm
+      rcases h with h | h
+      · simp [h] at hs'
+      · simp [h] at ha'
+    | spread hm => simp at hm
+  · intro N hN; cases hN with
+    | here hm => simp at hm
+    | inline hm hs' ha' =>
+      simp at hm; obtain ⟨rfl, rfl, rfl⟩ := hm
+      rcases h with h | h
+      · simp [h] at hs'
+      · simp [h] at ha'
+    | spread hm => simp at hm
+
+theorem hf_inline_expanded (obj on dirs sub) (A : FNode → Prop) (V V1 : List String) (q1 : List FNode)
+    (f1 : ∀ n, Reach s doc vars obj sub n → A n ∨ n ∈ q1) (f2 : ∀ N, NameReach s doc vars obj sub N → N ∈ V1)
+    (f3 : ∀ G ∈ V1, G ∈ V ∨ Covered s doc vars obj (fun n => A n ∨ n ∈ q1) V1 G) (f4 : ∀ G ∈ V, G ∈ V1) :
+    HeadFacts s doc vars obj (Sel.inline on dirs sub) A V q1 V1 := by
+  refine ⟨?_, ?_, f3, f4⟩
+  · intro n hn
+    cases hn with
+    | field hm => simp at hm
+    | inline hm hs' ha' hr' => simp at hm; obtain ⟨rfl, rfl, rfl⟩ := hm; exact f1 n hr'
+    | spread hm => simp at hm
+  · intro N hN
+    cases hN with
+    | here hm => simp at hm
+    | inline hm hs' ha' hr' => simp at hm; obtain ⟨rfl, rfl, rfl⟩ := hm; exact f2 N hr'
+    | spread hm => simp at hm
+
+theorem no_reach_spread_skipped {obj name dirs} (hsk : skipSelection vars dirs = .ok true) :
+    (∀ n, ¬ Reach s doc vars obj [Sel.spread name dirs] n) ∧ (∀ N, ¬ NameReach s doc vars obj [Sel.spread name dirs] N) := by
+  constructor
+  · intro n hn; cases hn with
+    | field hm => simp at hm
+    | inline hm => simp at hm
+    | spread hm hs' => simp at hm; obtain ⟨_, rfl⟩ := hm; simp [hsk] at hs'
+  · intro N hN; cases hN with
+    | here hm hs' => simp at hm; obtain ⟨_, rfl⟩ := hm; simp [hsk] at hs'
+    | inline hm => simp at hm
+    | spread hm hs' => simp at hm; obtain ⟨_, rfl⟩ := hm; simp [hsk] at hs'
+
+/-- a spread of a VISITED fragment of rank below `r`: the fragment is covered, nothing new -/
+theorem hf_spread_visited (rk : String → Nat) (r : Nat) (obj name dirs) (A : FNode → Prop) (V : List String)
+    (hcl : Closed s doc vars obj rk r A V) (hmem : name ∈ V) (hr : rk name < r) :
+    HeadFacts s doc vars obj (Sel.spread name dirs) A V [] V := by
+  have hcov : Covered s doc vars obj A V name := by
+    rcases hcl name hmem with h1 | h1
+    · omega
+    · exact h1
+  refine ⟨?_, ?_, fun G hG => Or.inl hG, fun G hG => hG⟩
+  · intro n hn
+    cases hn with
+    | field hm => simp at hm
+    | inline hm => simp at hm
+    | spread hm hs' hf' ha' hr' =>
+      simp at hm; obtain ⟨rfl, rfl⟩ := hm
+      exact Or.inl ((hcov _ hf' ha').1 n hr')
+  · intro N hN
+    cases hN with
+    | here hm hs' => simp at hm; obtain ⟨rfl, rfl⟩ := hm; exact hmem
+    | inline hm => simp at hm
+    | spread hm hs' hf' ha' hr' =>
+      simp at hm; obtain ⟨rfl, rfl⟩ := hm
+      exact (hcov _ hf' ha').2 N hr'
+
+/-- a spread of a fragment that does not apply (or does not exist): only the name becomes visited -/
+theorem hf_spread_not_applied (obj name dirs) (A : FNode → Prop) (V : List String)
+    (hna : ∀ fr, doc.fragment? name = some fr → fragmentTypeApplies s obj (some fr.on) ≠ .ok true) :
+    HeadFacts s doc vars obj (Sel.spread name dirs) A V [] (V ++ [name]) := by
+  refine ⟨?_, ?_, ?_, fun G hG => by simp [hG]⟩
+  · intro n hn
+    cases hn with
+    | field hm => simp at hm
+    | inline hm => simp at hm
+    | spread hm hs' hf' ha' => simp at hm; obtain ⟨rfl, rfl⟩ := hm; exact absurd ha' (hna _ hf')
+  · intro N hN
+    cases hN with
+    | here hm hs' => simp at hm; obtain ⟨rfl, rfl⟩ := hm; simp
+    | inline hm => simp at hm
+    | spread hm hs' hf' ha' => simp at hm; obtain ⟨rfl, rfl⟩ := hm; exact absurd ha' (hna _ hf')
+  · intro G hG
+    simp at hG
+    rcases hG with hG | rfl
+    · exact Or.inl hG
+    · exact Or.inr (by intro fr hf ha; exact absurd ha (hna fr hf))
+
+theorem hf_spread_expanded (obj name dirs) (fr : Frag) (hfr : doc.fragment? name = some fr) (A : FNode → Prop) (V V1 : List String) (q1 : List FNode)
+    (f1 : ∀ n, Reach s doc vars obj fr.sels n → A n ∨ n ∈ q1) (f2 : ∀ N, NameReach s doc vars obj fr.sels N → N ∈ V1)
+    (f3 : ∀ G ∈ V1, G ∈ V ++ [name] ∨ Covered s doc vars obj (fun n => A n ∨ n ∈ q1) V1 G) (f4 : ∀ G ∈ V ++ [name], G ∈ V1) :
+    HeadFacts s doc vars obj (Sel.spread name dirs) A V q1 V1 := by
+  refine ⟨?_, ?_, ?_, fun G hG => f4 G (by simp [hG])⟩
+  · intro n hn
+    cases hn with
+    | field hm => simp at hm
+    | inline hm => simp at hm
+    | spread hm hs' hf' ha' hr' =>
+      simp at hm; obtain ⟨rfl, rfl⟩ := hm
+      rw [hfr] at hf'; cases hf'; exact f1 n hr'
+  · intro N hN
+    cases hN with
+    | here hm hs' => simp at hm; obtain ⟨rfl, rfl⟩ := hm; exact f4 _ (by simp)
+    | inline hm => simp at hm
+    | spread hm hs' hf' ha' hr' =>
+      simp at hm; obtain ⟨rfl, rfl⟩ := hm
+      rw [hfr] at hf'; cases hf'; exact f2 N hr'
+  · intro G hG
+    rcases f3 G hG with h1 | h1
+    · simp at h1
+      rcases h1 with h1 | rfl
+      · exact Or.inl h1
+      · refine Or.inr ?_
+        intro fr' hf' ha'
+        rw [hfr] at hf'; cases hf'
+        exact ⟨fun n hn => f1 n hn, fun N hN => f2 N hN⟩
+    · exact Or.inr h1
+
+/-- the closure handed to the expansion of fragment `name` (rank `rk name`), which is now in progress -/
+theorem closed_for_body {rk : String → Nat} {r : Nat} {obj name : String} {A : FNode → Prop} {V : List String}
+    (hcl : Closed s doc vars obj rk r A V) (hr : rk name < r) : Closed s doc vars obj rk (rk name) A (V ++ [name]) := by
+  intro G hG
+  simp at hG
+  rcases hG with hG | rfl
+  · rcases hcl G hG with h1 | h1
+    · exact Or.inl (by omega)
+    · exact Or.inr (h1.mono (fun n hn => hn) (fun N hN => by simp [hN]))
+  · exact Or.inl (Nat.le_refl _)
+
 end
 end PyGql.Props.C04
